@@ -243,10 +243,18 @@ def kernels(tier):
                 ks.append(("seq", dict(device=dev, channels=ch2, program=[
                     ["add", "b", "min-delay", 32, False], ["shift", others, dig], ["shift", [late], dig],
                     ["add", "a", "no-delay", 16, True]])))
+    # EOM drift corrections are phase shifts too (shared kernel with C15-K4)
+    from checks import c15
+
+    ks += [("eom_drift", sh) for (k, sh) in c15.kernels(tier) if k == "drift"]
     return ks
 
 
 def harness(kernel, shape):
+    if kernel == "eom_drift":
+        from checks import c15
+
+        return c15.h_drift(shape)
     if kernel == "qubitref":
         return h_qubitref(shape)
     if kernel == "seq":
